@@ -433,17 +433,26 @@ func VerifNSX() {
 	m := vf.Int("m", 0, N)
 	dA := verifMkSide("a", n, ids, MM, vf.Pick("a.port", []string{"80", "81"}))
 	dB := verifMkSide("b", m, ids, MM, "80")
-	if G > 0 && vf.Bool("leftoverGroup") && len(dA.groups) < G {
-		for _, id := range ids {
-			found := false
-			for _, g := range dA.groups {
-				found = found || g.Id == id
+	if G > 0 && vf.Bool("leftoverGroup") {
+		// an unused Netspoc group on the device: under an id the target
+		// uses as well or under another id
+		id := "Netspoc-g9"
+		if !vf.Bool("leftoverHasOtherName") {
+			id = ""
+			for _, x := range ids {
+				found := false
+				for _, g := range dA.groups {
+					found = found || g.Id == x
+				}
+				if !found {
+					id = x
+					break
+				}
 			}
-			if !found {
-				dA.groups = append(dA.groups, verifMkGroup("a.left."+id, id, MM))
-				vf.Cover("unused Netspoc group on device")
-				break
-			}
+		}
+		if id != "" {
+			dA.groups = append(dA.groups, verifMkGroup("a.left."+id, id, MM))
+			vf.Cover("unused Netspoc group on device")
 		}
 	}
 	model := &verifNSX{hasPolicy: n > 0}
@@ -451,13 +460,24 @@ func VerifNSX() {
 	model.rules, model.groups, model.svcs = mc.rules, mc.groups, mc.svcs
 	tgt := dB.clone() // ghost copy of the target, untouched by the tool
 
-	// tag of a known defect family: two groups on one side start with the
-	// same address (sortRules orders rules by the first address only)
+	// tag of a known defect family: two rules of one side agree in all sort
+	// keys in front of the source and their source groups start with the
+	// same address (sortRules orders such rules by the first address only)
 	tieTag := ""
-	for _, gl := range [][]*nsxGroup{dA.groups, dB.groups} {
-		for i, g := range gl {
-			for _, h := range gl[:i] {
-				if g.Expression[0].IPAddresses[0] == h.Expression[0].IPAddresses[0] {
+	for _, sd := range []*verifSide{dA, dB} {
+		grp := func(r *nsxRule) *nsxGroup {
+			for _, g := range sd.groups {
+				if r.SourceGroups[0] == verifGrpPfx+g.Id {
+					return g
+				}
+			}
+			return nil
+		}
+		for i, r := range sd.rules {
+			for _, q := range sd.rules[:i] {
+				gr, gq := grp(r), grp(q)
+				if gr != nil && gq != nil && gr != gq && r.SequenceNumber == q.SequenceNumber && r.Action == q.Action &&
+					gr.Expression[0].IPAddresses[0] == gq.Expression[0].IPAddresses[0] {
 					tieTag = " [two groups start with the same address]"
 				}
 			}
